@@ -23,7 +23,29 @@ requests the quantity multiplies it again by (area_scale * n_parallel_instances)
 Minimal: Memory(area=1, area_scale=2): area 2 after the first call, 4 after the second.
 Any change that is not exactly such a re-application gets family ``unexplained-change``.
 
-SELFTEST (scratch copy /tmp/af-mut-c27, VERIF_REPO; quick tier): see end of docstring.
+Regression guard (beyond the literal statement, silent on the unchanged tree): after the
+history the *input* spec object is costed once more and must reproduce the first result
+(family ``fresh-call-on-same-input-differs``) -- a fix that remembers "already scaled" in
+state shared between the input spec and its result would otherwise go unnoticed.
+
+PROPOSED PATCH (applied to the scratch copy: check silent on all 3393 quick configurations,
+repo tests test_api_gaps/test_component_fields/test_arch_flattening/test_spec: 200 passed)
+  components.py  Component: `_costs_calculated: set = PrivateAttr(default_factory=set)`
+  spec.py:251-283  `done = set(orig._costs_calculated)`; each block becomes
+                   `if area and "area" not in done: ...; done.add("area")` (same for energy,
+                   throughput, leak); finally `orig._costs_calculated = done` (a *new* set: the
+                   private attribute is shared with the un-costed input spec by model_copy).
+
+SELFTEST (scratch copy /tmp/af-mut-c27 = accelforge/ + the proposed patch so that the baseline is
+silent, /tmp/af-mut-c27b = unchanged; VERIF_REPO, quick tier; copies deleted afterwards)
+  M0 the unchanged tree itself                                            caught  scales-reapplied-on-recompute (3217 of 3393)
+  M1 patch without the guard for area (`if area:`)                        caught  scales-reapplied-on-recompute (2184)
+  M2 patch mutating the shared set (`done = orig._costs_calculated`)      caught  fresh-call-on-same-input-differs (3189)
+  M3 patch without the guard for throughput                               caught  scales-reapplied-on-recompute (2378)
+  M4 unchanged tree + throughput recomputed under the *energy* flag       caught  unexplained-change (282) besides the known family
+  M5 totals written without fanout on every call (`total_area = area`)    equivalent for C27 (wrong from the first call on, stable
+                                                                          afterwards; C26 reports it)
+  M6 always re-evaluate (`if True: self = self._spec_eval_expressions`)   equivalent (values and marker survive re-evaluation)
 """
 
 from __future__ import annotations
